@@ -6,10 +6,23 @@ From SF Require Import FsTree.Paths.
 Import ListNotations.
 Local Open Scope string_scope. Local Open Scope list_scope.
 
-(* Creating an archive of a tree and extracting it at any path of any file system leaves there exactly the merge of the tree
-   over what was there: every member lands where its path says, for trees of any size and shape. *)
-Theorem C22_extract_members : forall t p fs, extract (members p t) fs = at_path p (merge t) (Some fs).
-Proof. exact extract_members. Qed.
+(* Creating an archive of a tree and extracting it at a path of a file system leaves there exactly the merge of the tree over
+   what was there: every member lands where its path says, for trees of any size and shape.  Stated on the domain where the
+   total tree functions stand for the tools: no kind conflict ([no_conflict]: no regular file where a directory has to go,
+   on the way to the path or below it, and no directory where a file has to go) -- outside it tar/tarfile/cp refuse or
+   half-copy and the model does not describe them (C22_conflict_outside_model). *)
+Theorem C22_extract_members : forall t p fs,
+  no_conflict p t fs -> extract (members p t) fs = at_path p (merge t) (Some fs).
+Proof. exact extract_members_dom. Qed.
+
+Theorem C22_dst_ok_no_conflict : forall dst sname dname u,
+  dst_ok dst sname -> no_conflict (place dst sname dname) u (world dname dst).
+Proof. exact dst_ok_no_conflict. Qed.
+
+Theorem C22_conflict_outside_model :
+  ~ no_conflict ["d"; "s"] (Dir []) (Dir [("d", Dir [("s", File "old" false)])]) /\
+  extract (members ["d"; "s"] (Dir [])) (Dir [("d", Dir [("s", File "old" false)])]) = Dir [("d", Dir [("s", Dir [])])].
+Proof. exact conflict_is_outside. Qed.
 
 (* ... and where nothing of that name was, the tree itself comes back (regular-file contents, exec bits, directory structure,
    link texts), next to the untouched entries. *)
@@ -24,16 +37,17 @@ Proof. vm_compute. reflexivity. Qed.
 
 (* mkdir -p dst; tar x -C dst --strip-components 1 (and makedirs + copytree) = extracting the tree under the new name. *)
 Theorem C22_strip_components : forall d s es fs,
+  no_conflict d (Dir es) fs ->
   extract (reroot d (strip1' (members [s] (Dir es)))) (insert fs (d, MDir)) = extract (members d (Dir es)) fs.
-Proof. exact strip_extract. Qed.
+Proof. exact strip_extract_dom. Qed.
 
 (* The extract_tar_stream loop (one member at a time, isdir(dst) asked of the evolving file system, relpath against the
    source's basename, dst re-bound after a root directory lands in an existing directory) = plain extraction at the
    registered place, for every archive of a tree and both destination states. *)
 Theorem C22_remote_to_local_loop : forall dst sname dname t',
-  (dst = None \/ exists es, dst = Some (Dir es)) ->
+  dst_ok dst sname ->
   r2l dst sname dname t' = extract (members (place dst sname dname) t') (world dname dst).
-Proof. exact r2l_eq. Qed.
+Proof. exact r2l_eq_dom. Qed.
 
 (* Dereferencing keeps trees well formed (same names, directory by directory). *)
 Theorem C22_deref_wf : forall root, wf root -> forall fuel self t t', wf t -> deref fuel root self t = Some t' -> wf t'.
@@ -43,7 +57,11 @@ Proof. exact wf_deref. Qed.
    dereferenced form is t', every destination state (absent, or an existing directory without an entry named like the source),
    writable or read-only, every route, in every cell of the routing tables except the two refuted below ([cell_ok];
    C22_cells_excluded says these are the only ones left out): the entry at the path transfer_data registers is a copy equal
-   to t', or the source tree itself (cp -rf: its links resolve to t'), or -- read-only only -- a link to the source.
+   to t', or the source tree itself (cp -rf: its links resolve to t'), or -- read-only only -- a link to the source;
+   [copy_exact] says which, route by route (same location writable: the tree itself; same location / local read-only: the
+   link; every other cell: t').  NOT covered (outside [dst_ok]): a destination that is an existing regular file, and a
+   destination directory that already holds an entry named like the source (re-transfer over an earlier copy, kind
+   conflicts) -- these are run by the correspondence and judged by the oracle only, see known/C22.txt.
    _partial with respect to the property text: two cells are refuted; tools are modelled from their manuals; paths are
    component lists; the registry is C21's. *)
 Theorem C22_transfer_partial : forall fuel r w dst sname dname t t' fs',
@@ -51,7 +69,7 @@ Theorem C22_transfer_partial : forall fuel r w dst sname dname t t' fs',
   deref fuel t [] t = Some t' ->
   cell_ok r w dst sname dname t = true ->
   transfer fuel r w dst sname dname t = Some fs' ->
-  exists c, lookup fs' (place dst sname dname) = Some c /\ copy_ok w t t' c.
+  exists c, lookup fs' (place dst sname dname) = Some c /\ copy_exact r w t t' c.
 Proof. exact transfer_all. Qed.
 
 Theorem C22_cells_excluded : forall r w dst sname dname t,
@@ -84,10 +102,11 @@ Proof. vm_compute. split; reflexivity. Qed.
 
 (* What was in an existing destination directory under another name is still there afterwards. *)
 Theorem C22_frame : forall fuel r w es sname dname t fs' m,
+  dst_ok (Some (Dir es)) sname ->
   m <> sname -> cell_ok r w (Some (Dir es)) sname dname t = true ->
   transfer fuel r w (Some (Dir es)) sname dname t = Some fs' ->
   lookup fs' [dname; m] = lookup1 m es.
-Proof. exact transfer_frame_all. Qed.
+Proof. exact transfer_frame_dom. Qed.
 
 (* Refuted cells (each replayed on the real code, see known/C22.txt). *)
 Theorem C22_exec_bit_refuted :
@@ -166,6 +185,8 @@ Example C22_path_strings_ex :
 Proof. vm_compute. split; reflexivity. Qed.
 
 Print Assumptions C22_extract_members.
+Print Assumptions C22_dst_ok_no_conflict.
+Print Assumptions C22_conflict_outside_model.
 Print Assumptions C22_archive_roundtrip.
 Print Assumptions C22_strip_components.
 Print Assumptions C22_remote_to_local_loop.
